@@ -167,9 +167,11 @@ func libraryServerAgainstPeer(c *vm.Ctx, r *vm.Rand) {
 	if !match {
 		clientPW = "x" + serverPW
 	}
+	// any request id, -1 included: on the wire -1 is how a refusal looks, but whether the server lets the client in is
+	// decided by the password alone
 	loginID, cmdID := genI32(r), genI32(r)
-	if loginID == -1 {
-		loginID = 5
+	if r.Intn(6) == 0 {
+		loginID = -1
 	}
 	wit := func() any {
 		return map[string]any{"peer": "hand-written client", "passwords_equal": match, "login_id": loginID, "command_id": cmdID}
@@ -227,6 +229,9 @@ func libraryServerAgainstPeer(c *vm.Ctx, r *vm.Rand) {
 			return
 		}
 		c.Cover("peer.server-refuses")
+		if loginID == -1 {
+			c.Cover("peer.server-refuses.login-id-minus-one")
+		}
 		return
 	}
 	if ans.id != loginID || ans.typ != 2 || s.loginErr != nil {
